@@ -44,6 +44,12 @@ func Reset() {
 	slices = map[*rocksdb.Slice][]byte{}
 	OpenIter = 0
 	WAL = nil
+	dbCFs = map[*rocksdb.DB][]*rocksdb.ColumnFamilyHandle{}
+	engines = map[*rocksdb.BackupEngine]*engineState{}
+	infos = map[*rocksdb.BackupEngineInfo][]backup{}
+	restored = map[string][][]kv{}
+	dbPath = map[*rocksdb.DB]string{}
+	OpenInfos = 0
 }
 
 func put(cf *rocksdb.ColumnFamilyHandle, k, v []byte) {
@@ -182,10 +188,122 @@ func ItValue(it *rocksdb.Iterator) *rocksdb.Slice {
 	slices[s] = st.items[st.pos].v
 	return s
 }
-func ItClose(it *rocksdb.Iterator)                 { OpenIter-- }
-func SliceData(s *rocksdb.Slice) []byte            { return slices[s] }
-func SliceSize(s *rocksdb.Slice) int               { return len(slices[s]) }
-func SliceFree(s *rocksdb.Slice)                   {}
-func NewDefaultReadOptions() *rocksdb.ReadOptions  { return &rocksdb.ReadOptions{} }
+func ItClose(it *rocksdb.Iterator)                  { OpenIter-- }
+func SliceData(s *rocksdb.Slice) []byte             { return slices[s] }
+func SliceSize(s *rocksdb.Slice) int                { return len(slices[s]) }
+func SliceFree(s *rocksdb.Slice)                    {}
+func NewDefaultReadOptions() *rocksdb.ReadOptions   { return &rocksdb.ReadOptions{} }
 func ROSetFillCache(o *rocksdb.ReadOptions, v bool) {}
-func RODestroy(o *rocksdb.ReadOptions)             {}
+func RODestroy(o *rocksdb.ReadOptions)              {}
+
+// ---- backup engine ----
+//
+// Contract (RocksDB BackupEngine, C API): CreateNewBackupWithMetadata captures
+// the content of every column family of the database at that moment together
+// with the metadata string; identifiers start at 1, grow by one and are not
+// reused while the engine is open; GetInfo lists the existing backups in
+// identifier order; DeleteBackup and RestoreDBFromBackup of an identifier that
+// does not exist fail; a restore materialises the captured content in the given
+// directory, where a database opened afterwards finds it.
+
+type backup struct {
+	id   int64
+	meta string
+	data [][]kv // per column family, in the order the database was opened with
+}
+
+type engineState struct {
+	backups []backup
+	nextID  int64
+}
+
+var (
+	dbCFs    = map[*rocksdb.DB][]*rocksdb.ColumnFamilyHandle{}
+	engines  = map[*rocksdb.BackupEngine]*engineState{}
+	infos    = map[*rocksdb.BackupEngineInfo][]backup{}
+	restored = map[string][][]kv{}
+	// OpenInfos counts BackupEngineInfo handles not yet destroyed.
+	OpenInfos int
+)
+
+// Register tells the model which column-family handles a database was opened with.
+func Register(db *rocksdb.DB, handles []*rocksdb.ColumnFamilyHandle) {
+	dbCFs[db] = handles
+	if data, ok := restored[dbPath[db]]; ok {
+		for i, h := range handles {
+			if i < len(data) {
+				cfs[h] = append([]kv{}, data[i]...)
+			}
+		}
+	}
+}
+
+var dbPath = map[*rocksdb.DB]string{}
+
+// SetPath records the directory a database handle was opened on (before Register).
+func SetPath(db *rocksdb.DB, path string) { dbPath[db] = path }
+
+func engine(b *rocksdb.BackupEngine) *engineState {
+	st := engines[b]
+	if st == nil {
+		st = &engineState{nextID: 1}
+		engines[b] = st
+	}
+	return st
+}
+
+func BECreateNewBackupWithMetadata(b *rocksdb.BackupEngine, db *rocksdb.DB, metadata string) error {
+	st := engine(b)
+	bk := backup{id: st.nextID, meta: metadata}
+	st.nextID++
+	for _, h := range dbCFs[db] {
+		bk.data = append(bk.data, append([]kv{}, cfs[h]...))
+	}
+	st.backups = append(st.backups, bk)
+	return nil
+}
+
+func BEDeleteBackup(b *rocksdb.BackupEngine, backupID uint32) error {
+	st := engine(b)
+	for i, bk := range st.backups {
+		if bk.id == int64(backupID) {
+			st.backups = append(st.backups[:i:i], st.backups[i+1:]...)
+			return nil
+		}
+	}
+	return errors.New("NotFound: Backup not found")
+}
+
+func BEGetInfo(b *rocksdb.BackupEngine) *rocksdb.BackupEngineInfo {
+	in := &rocksdb.BackupEngineInfo{}
+	infos[in] = append([]backup{}, engine(b).backups...)
+	OpenInfos++
+	return in
+}
+
+func BERestoreDBFromBackup(b *rocksdb.BackupEngine, backupID uint32, dbDir, walDir string, ro *rocksdb.RestoreOptions) error {
+	for _, bk := range engine(b).backups {
+		if bk.id == int64(backupID) {
+			restored[dbDir] = bk.data
+			return nil
+		}
+	}
+	return errors.New("NotFound: Backup not found")
+}
+
+func BERestoreDBFromLatestBackup(b *rocksdb.BackupEngine, dbDir, walDir string, ro *rocksdb.RestoreOptions) error {
+	st := engine(b)
+	if len(st.backups) == 0 {
+		return errors.New("NotFound: No backups")
+	}
+	restored[dbDir] = st.backups[len(st.backups)-1].data
+	return nil
+}
+
+func BIGetCount(in *rocksdb.BackupEngineInfo) int                 { return len(infos[in]) }
+func BIGetBackupID(in *rocksdb.BackupEngineInfo, i int) int64     { return infos[in][i].id }
+func BIGetTimestamp(in *rocksdb.BackupEngineInfo, i int) int64    { _ = infos[in][i]; return 0 }
+func BIGetSize(in *rocksdb.BackupEngineInfo, i int) int64         { _ = infos[in][i]; return 0 }
+func BIGetNumFiles(in *rocksdb.BackupEngineInfo, i int) int32     { _ = infos[in][i]; return 0 }
+func BIGetAppMetadata(in *rocksdb.BackupEngineInfo, i int) string { return infos[in][i].meta }
+func BIDestroy(in *rocksdb.BackupEngineInfo)                      { OpenInfos-- }
